@@ -1190,6 +1190,100 @@ def single_step_cursors(ctx, rule, fns, what):
     ctx.holds(rule, what + ' (no kept cursor caught up by a single conditional step under an unbounded question; %d conditional advances looked at)' % n, None)
 
 
+def validated_against_question(M, fn, fields, depth=2):
+    """True when fn (or a method of its own object that it calls, to `depth`) compares something read from the kept fields `fields` with one of its own parameters
+    (`cached[0].equals(returns)`, `dt < self._last_dt`, `len(assets) != len(cache)`): kept state whose use is checked against the question is not, by its presence alone,
+    dependence on history - whether the check is sufficient is a separate question.  `x is None` tests do not count."""
+    fields = set(fields)
+    seen = set()
+
+    def scan(g, d):
+        if g is None or g.qn in seen:
+            return False
+        seen.add(g.qn)
+        params = {a_.arg for a_ in g.node.args.args if a_.arg != 'self'} | {a_.arg for a_ in g.node.args.kwonlyargs}
+        alias = set()
+        params_derived = set(params)
+        for _ in range(3):
+            for s_ in ast.walk(g.node):
+                if isinstance(s_, ast.Assign):
+                    names_ = {t_.id for t_ in s_.targets if isinstance(t_, ast.Name)} | {e_.id for t_ in s_.targets if isinstance(t_, ast.Tuple) for e_ in t_.elts if isinstance(e_, ast.Name)}
+                    if not names_:
+                        continue
+                    if any((isinstance(x_, ast.Attribute) and isinstance(x_.value, ast.Name) and x_.value.id == 'self' and x_.attr in fields) or
+                           (isinstance(x_, ast.Name) and x_.id in alias) for x_ in ast.walk(s_.value)):
+                        alias |= names_
+                    elif any(isinstance(x_, ast.Name) and x_.id in params_derived for x_ in ast.walk(s_.value)):
+                        params_derived |= names_
+
+        def kept(e_):
+            return any((isinstance(x_, ast.Attribute) and isinstance(x_.value, ast.Name) and x_.value.id == 'self' and x_.attr in fields) or
+                       (isinstance(x_, ast.Name) and x_.id in alias) for x_ in ast.walk(e_))
+
+        def asked(e_):
+            return any(isinstance(x_, ast.Name) and x_.id in params_derived and x_.id not in alias for x_ in ast.walk(e_))
+        for c_ in ast.walk(g.node):
+            if isinstance(c_, ast.Compare):
+                sides = [c_.left] + list(c_.comparators)
+                if any(isinstance(x_, ast.Constant) and x_.value is None for x_ in sides):
+                    continue
+                if any(isinstance(o_, (ast.In, ast.NotIn)) for o_ in c_.ops):
+                    # `key in table` is the look-up itself, not a comparison of what was kept with the question
+                    continue
+                if any(kept(a_) for a_ in sides) and any(asked(b_) and not kept(b_) for b_ in sides):
+                    return True
+            if isinstance(c_, ast.Call) and isinstance(c_.func, ast.Attribute) and c_.func.attr in ('equals', 'array_equal', 'identical') and c_.args:
+                if (kept(c_.func.value) and asked(c_.args[0])) or (asked(c_.func.value) and kept(c_.args[0])):
+                    return True
+        if d > 0 and g.cls is not None:
+            for c_ in ast.walk(g.node):
+                if isinstance(c_, ast.Call) and isinstance(c_.func, ast.Attribute) and isinstance(c_.func.value, ast.Name) and c_.func.value.id == 'self':
+                    h = g.cls.lookup(c_.func.attr) if hasattr(g.cls, 'lookup') else None
+                    if h is not None and not getattr(h, 'is_property', False) and scan(h, d - 1):
+                        return True
+        return False
+    return scan(fn, depth)
+
+
+def _conditionally_dropped_by_caller(M, c, fn, D):
+    """Some method of class c calls fn (self.fn(...)) and, in the same body, resets self.D (to None / del) inside an `if` whose test reads one of that method's own
+    parameters: a selective invalidation, right or wrong by what the condition lets through."""
+    name = fn.qn.split('.')[-1]
+    for m in c.methods.values():
+        if m is fn:
+            continue
+        calls = any(isinstance(k, ast.Call) and isinstance(k.func, ast.Attribute) and k.func.attr == name and isinstance(k.func.value, ast.Name) and k.func.value.id == 'self'
+                    for k in ast.walk(m.node))
+        if not calls:
+            continue
+        params = {a_.arg for a_ in m.node.args.args if a_.arg != 'self'}
+        for i_ in ast.walk(m.node):
+            if isinstance(i_, ast.If) and any(isinstance(x_, ast.Name) and x_.id in params for x_ in ast.walk(i_.test)):
+                for b_ in i_.body:
+                    for k in ast.walk(b_):
+                        if isinstance(k, ast.Assign) and any(isinstance(t_, ast.Attribute) and t_.attr == D and isinstance(t_.value, ast.Name) and t_.value.id == 'self' for t_ in k.targets) \
+                                and isinstance(k.value, ast.Constant) and k.value.value is None:
+                            return True
+                        if isinstance(k, ast.Delete) and any(isinstance(t_, ast.Attribute) and t_.attr == D for t_ in k.targets):
+                            return True
+    return False
+
+
+def _stored_without(fn, table, missing):
+    """Every `self.<table>[k] = v` of fn's class sits in a method other than fn whose parameters include none of `missing` (plain parameter names of fn)."""
+    own = {a_.arg for a_ in fn.node.args.args}
+    missing = [str(x_) for x_ in missing]
+    if not missing or not all(x_ in own for x_ in missing):
+        return False
+    sites = []
+    for m in fn.cls.methods.values():
+        for k in ast.walk(m.node):
+            if isinstance(k, ast.Assign) and any(isinstance(t_, ast.Subscript) and isinstance(t_.value, ast.Attribute) and t_.value.attr == table and
+                                                 isinstance(t_.value.value, ast.Name) and t_.value.value.id == 'self' for t_ in k.targets):
+                sites.append(m)
+    return bool(sites) and all(m is not fn and not ({a_.arg for a_ in m.node.args.args} & set(missing)) for m in sites)
+
+
 def unread_atoms(M, got, expected=None, fn=None):
     """Parts of a computed term that were not reduced to the stored fields a formula rule speaks about: calls of package functions left un-inlined, callables
     applied opaquely, and attributes that are *properties* of some package class (a stored derived figure, a projection the engine could not see through).
@@ -1509,6 +1603,10 @@ def stale_derived_values(ctx, rule, prefixes, what):
                 ctx.undecided(rule, what, fn.site(s), '%s.%s is thrown away by its reader whenever a stamp the reader recomputes differs from the one stored beside it (%s): whether that stamp changes '
                               'with every change of %s.%s is an argument about the stamp\'s values, not made here' % (c.name, D, _stamp_validated(c, D), objtxt, attr))
                 continue
+            if not ok and _conditionally_dropped_by_caller(M, c, fn, D):
+                ctx.undecided(rule, what, fn.site(s), '%s changes %s.%s and leaves %s.%s, but its caller in %s drops %s.%s under a condition on the change at hand: whether the changes that '
+                              'condition lets through can alter the figure is an argument about values, not made here' % (fn.qn, objtxt, attr, c.name, D, c.name, c.name, D))
+                continue
             if not ok:
                 ctx.violation(rule, what, fn.site(s), '%s %s %s.%s, from which %s.%s was computed (%s), and does not recompute it: the stored %s goes stale'
                               % (fn.qn, 'changes in place' if isinstance(s, ast.Expr) else 'assigns', objtxt, attr, c.name, D, ', '.join(sorted(deps)), D),
@@ -1608,6 +1706,11 @@ def cache_invalidation(ctx, rule, cls, caches, what):
             # contradiction: one public method of the class changes an input and drops the kept figure in the same step, another changes an input and leaves it
             ok_all = False
             for qn_, cond_, flds_, site_ in stale_b[:4]:
+                if qn_ == sib_[0][0]:
+                    # the SAME method drops the figure on some paths and keeps it on others: a selective invalidation, decided by what its condition lets through
+                    ctx.undecided(rule, what, site_, '%s drops the cached %s on some paths and keeps it on path [%s] while changing %s: whether the changes kept there can alter the figure is an '
+                                  'argument about values, not made here' % (qn_, fmt(loc)[:40], cond_[:100], ', '.join(flds_)))
+                    continue
                 ctx.violation(rule, what, site_, '%s changes %s on path [%s] and keeps the cached %s, which was computed from it, while %s drops it in the same step as it changes %s: the next reader is handed the old figure'
                               % (qn_, ', '.join(flds_), cond_[:120], fmt(loc)[:40], sib_[0][0], sib_[0][1]), key='%s|cache-stale|%s|%s' % (rule, root, qn_))
         elif bad:
@@ -1705,7 +1808,13 @@ def without_sound_memo_hits(ctx, rule, fn, ps, keyprefix):
     sound = set()
     open_ = set()
     for m_, vd in sorted(memos.items()):
-        if vd[0] == 'unsound':
+        if vd[0] == 'unsound' and fn.cls is not None and _stored_without(fn, m_, vd[2]):
+            # the statement that files the entries sits in a helper that is not even handed the argument the entries are said to depend on: what is stored (whole
+            # arrays, a frame) cannot vary with it - the look-up that uses the argument happens on what was stored, afterwards
+            ctx.undecided(rule, '%s answers from its memo %s only what it would compute afresh' % (fn.qn, m_), fn.site(),
+                          'entries of %s are filed by a helper that does not receive %s: the stored value cannot depend on it; what is done with the entry afterwards is not read here' % (m_, ', '.join(vd[2])))
+            open_.add(m_)
+        elif vd[0] == 'unsound':
             ctx.violation(rule, '%s answers from its memo %s only what it would compute afresh' % (fn.qn, m_), fn.site(),
                           'the memo is keyed by %s but the stored value also depends on %s%s' % (fmt(vd[1]), ', '.join(vd[2]), (': ' + vd[3]) if len(vd) > 3 else ''),
                           key='%s|%s|memo-key' % (keyprefix, m_))
